@@ -734,15 +734,16 @@ func main() {
 		o6(path, rest)
 	}
 
-	// O1c (sentence 1 after an "@(" that never becomes an expression): in  b1 @( rest  where rest has no ")" at all,
-	// there is no expression, so everything is text outside expressions: "@@" yields "@" in rest as well
+	// O1c (sentence 1 after an "@(" that never becomes an expression): in  b1 @( rest  where the parenthesis opened by
+	// "@(" is never closed (neverCloses: parentheses inside text literals do not count), there is no expression, so
+	// everything is text outside expressions: "@@" yields "@" in rest as well, and nothing in rest is evaluated
+	// (theorem c12_body_after_unterminated)
 	o1c := func(b1, rest string) {
-		if !validInput(b1+rest) || strings.Contains(rest, ")") {
+		if !validInput(b1+rest) || !neverCloses(rest) {
 			return
 		}
 		w1, ok1 := specBody(b1, topSet)
-		w2, ok2 := specBody(rest, topSet)
-		if !ok1 || !ok2 {
+		if !ok1 {
 			return
 		}
 		if strings.HasSuffix(b1, "@") {
@@ -751,23 +752,53 @@ func main() {
 		res.OracleChecks++
 		tpl := b1 + "@(" + rest
 		res.Eval("O1c:"+tpl, exsx.Special(tpl))
-		want := w1 + "@(" + w2
+		want := w1 + "@(" + strings.ReplaceAll(rest, "@@", "@")
 		got, hasErr, pn := templateReal(tpl, vals)
 		if pn != "" || hasErr || got != want {
 			res.Fail("body-passthrough:after-unterminated-expression", map[string]any{"template": tpl},
 				fmt.Sprintf("Template(%q) = %q err=%v panic=%q, statement prescribes %q", tpl, got, hasErr, pn, want))
 		}
 	}
-	for _, c := range [][2]string{{"Sad :", " write to help@@example.com"}, {"", "@@"}, {"x ", "1 + 2 @@ 3"}, {"", "\"a@@b"}, {"a@@b ", "no at"}, {"", " @@@ "}} {
+	for _, c := range [][2]string{{"Sad :", " write to help@@example.com"}, {"", "@@"}, {"x ", "1 + 2 @@ 3"}, {"", "\"a@@b"}, {"a@@b ", "no at"}, {"", " @@@ "},
+		{"a@@b ", "1 + (2) @@ @foo.x"}, {"", "@foo @(1) @@"}, {"", "\"q) @@ \\\" ) @@"}, {"hi ", "((x) @@ (y)"}} {
 		o1c(c[0], c[1])
 	}
 	for i := 0; i < nOr/6; i++ {
 		o1c(randBody(ro), randBody(ro))
+		o1c(randBody(ro), randBody(ro)+hx.Pick(ro, []string{"(", "\"", "(("})+randBody(ro)+randBody(ro))
 	}
 
 	b, _ := json.Marshal(res.Distribution)
 	_ = b
 	res.Write(o)
+}
+
+// neverCloses: the parenthesis opened by "@(" in front of rest is still open at the end of rest. Written from the
+// scanner's contract: a text literal runs from a quote to the next quote not protected by a backslash (a backslash
+// protects the next rune), parentheses inside a literal do not count
+func neverCloses(rest string) bool {
+	depth, inLit, esc := 1, false, false
+	for _, c := range rest {
+		if inLit {
+			if c == '"' && !esc {
+				inLit = false
+			}
+			esc = c == '\\' && !esc
+			continue
+		}
+		switch c {
+		case '"':
+			inLit, esc = true, false
+		case '(':
+			depth++
+		case ')':
+			depth--
+			if depth == 0 {
+				return false
+			}
+		}
+	}
+	return true
 }
 
 // identifierClass: why the parser cannot take an identifier path the scanner delimited — from the path's shape
